@@ -36,6 +36,7 @@ network before _alloc; C14.5 the request is forgotten before its address is
 freed and freed with the same owner key; C14.6 base and owner path are
 canonicalised by the same function.
 Sweep: C14.1 / C14.2 / C14.5 every errno test in the managers and the network service tolerates exactly its benign code; C14.3 synchronize ends with the collector; C14.4 alloc hands out an address only after _alloc succeeded for it.
+Sixth round: C14.4 an address given back by the network service is also dropped from its remembered devices.
 Does NOT decide reachable-state invariants under concurrent owners.
 """
 
